@@ -73,3 +73,12 @@ def collect(P):
     # transform_range_before_linear_transformation (fix of F81).  1 iff present; the model follows it.
     P.flag("COLUMNAR_RANGE_BELOW_MIN_GUARD", "columnar/src/column_values/u64_based/bitpacked.rs",
            r"fn transform_range_before_linear_transformation\([^)]*\)[^{]*\{[^}]*?if range\.is_empty\(\)\s*\|\|\s*\*range\.end\(\)\s*<\s*stats\.min_value\s*\{\s*return None;")
+    # BitUnpacker::get_ids_for_value_range: widths above this use the plain row scan, the others the u32 batch path
+    P.int_const("BITUNPACKER_FAST_RANGE_MAX_BITS", bp,
+                r"if self\.bit_width\(\) > (\d+) \{\s*self\.get_ids_for_value_range_slow")
+    # ... on the u32 path the upper bound is saturated at u32::MAX before the cast (1 iff the source does so)
+    P.flag("BITUNPACKER_RANGE_END_SATURATES", bp,
+           r"let range_u32 = \(\*range\.start\(\) as u32\)\s*\.\.=\s*\(\*range\.end\(\)\)\s*\.min\(u32::MAX as u64\) as u32;")
+    # ... and a lower bound above u32::MAX yields nothing
+    P.flag("BITUNPACKER_RANGE_START_ABOVE_U32_EMPTY", bp,
+           r"if \*range\.start\(\) > u32::MAX as u64 \{\s*positions\.clear\(\);\s*return;")
